@@ -44,6 +44,12 @@ DegenSumRule ==
          ELSE IF Len(E) = 3 THEN /\ DenIO(Ed, m) = DenIO(Ed, rest)
                                  /\ OmegaNumIO(Ed, Vx, Vy, m) + OmegaNumIO(Ed, Vx, Vy, rest) = 0
          ELSE TRUE
+(* a Fermi scan that starts anywhere (below all bands: lo4 = -3; between / inside groups: 4 e + 1) ends with 0 above all bands *)
+ScanStarts == {-3} \cup {4 * e + 1 : e \in 0..EMAX}
+ScanZero == \A lo4 \in ScanStarts : \A g \in {"none", "chain", "kramers"} : ScanTotal(E, om, lo4, g, TRUE) = 0
+(* sensitivity (expected to FAIL): the two wrong book-keepings *)
+ScanZeroNOCLAMP == \A lo4 \in ScanStarts : ScanTotal(E, om, lo4, "chain", FALSE) = 0
+ScanZeroKRAMERSDROP == \A lo4 \in ScanStarts : ScanTotal(E, om, lo4, "kramers_drop_last", TRUE) = 0
 (* non-vacuity: some state has a non-zero curvature (checked by the harness on the dump, and here as a property that
    must be VIOLATED when asked for) *)
 AllZero == \A n \in 1..Len(E) : om[n] = 0
